@@ -1,9 +1,9 @@
-// libFuzzer target: ASCII armor + packet / subpacket decoder + key block / keyring parsers
+// libFuzzer target: ASCII armor decoder + packet decoder (all packet types) + subpacket decoder
 #include "c12_fz.hh"
 using namespace c12;
 extern "C" int LLVMFuzzerTestOneInput(const uint8_t *data, size_t size) {
-	fz_init(true); fz_reseed(data, size); std::string s((const char *)data, size);
-	if (size && (data[0] & 0x80)) { pgp_packet_decode(s); pgp_pubkey_block(s); pgp_prvkey_block(s); pgp_keyring(s); }
-	else { pgp_armor_decode(s); pgp_pubkey_block_armored(s); pgp_prvkey_block_armored(s); pgp_keyring_armored(s); pgp_subpacket_decode(s); }
+	fz_init(false); fz_reseed(data, size); std::string s((const char *)data, size);
+	if (size && (data[0] & 0x80)) { pgp_packet_decode(s); pgp_subpacket_decode(s.substr(1)); }
+	else { Oct out; tmcg_openpgp_armor_t t = PGP::ArmorDecode(s, out); if (t != TMCG_OPENPGP_ARMOR_UNKNOWN && out.size()) pgp_packet_decode(b2sx(out)); pgp_subpacket_decode(s); }
 	return 0;
 }
